@@ -185,6 +185,11 @@ CONTEXTS = {
     'path-comp-norel-two-refs': ('setup', ['def string A9 = 7', 'def path Q = @[A9]@@[M]@'], {'string'}, True),
     'file-name-comp': ('setup', ['file d/@[M]@'], {'string'}, True),
     'dir-name-comp-cleanup': ('cleanup', ['dir x@[M]@'], {'string'}, True),
+    # references in the SUFFIX of a path that starts with a path symbol (both ways of writing it)
+    'suffix-of-rel-symbol': ('setup', ['def path B9 = -rel-act b', 'def path Q = -rel B9 @[M]@'], {'string'}, True),
+    'suffix-of-rel-symbol-glued': ('assert', ['def path B7 = -rel-act b', 'exists -rel B7 x@[M]@y'], {'string'}, True),
+    'suffix-after-path-symbol': ('before-assert', ['def path B8 = -rel-tmp b', 'def path Q = @[B8]@/@[M]@.txt'], {'string'}, True),
+    'suffix-after-path-symbol-2nd-component': ('cleanup', ['def path B6 = -rel-tmp b', 'dir @[B6]@/d/@[M]@'], {'string'}, True),
     'rel': ('setup', ['def path Q = -rel M x'], {'path'}, False),
     'rel-assert': ('assert', ['exists -rel M x'], {'path'}, False),
     'lead': ('setup', ['def path Q = @[M]@/x'], {'path', 'string'}, True),
